@@ -30,6 +30,10 @@ def gen_matrix(rng, d, kind, tol):
     scale = w.max()
     t = tol if tol is not None else scale * d * EPS
     if kind == 'pd':
+        if rng.rand() < 0.35:
+            # positive definite, spectrum over up to 13 orders of magnitude (still far above the d·eps cut-off)
+            w = np.sort(10.0 ** rng.uniform(-13, 0, size=d)) * scale
+            w[-1] = scale
         exp = 'ok'
     elif kind == 'singular':
         r = int(rng.randint(0, d))
@@ -137,6 +141,10 @@ def run(R, tier, seed, driver_ok):
             cond = (np.abs(w[w != 0]).max() / np.abs(w[w != 0]).min()) if np.any(w != 0) else 1
             if max(res) > 1e-9 * cond:
                 R.violation('pseudo_inverse/penrose', f'_pseudo_inverse_from_eig violates the Penrose equations: residuals {res}', case)
+            # its spectrum is the documented one: 1/w where |w| > max(w)·d·eps, 0 elsewhere (in the certified eigenbasis)
+            sp = np.einsum('ai,ab,bi->i', Q, P, Q)
+            if np.abs(sp - wp).max() > 1e-6 * max(np.abs(wp).max(), 1e-300):
+                R.violation('pseudo_inverse/spectrum', f'_pseudo_inverse_from_eig: spectrum {sp} instead of {wp} (eigenvalues {w})', case)
             if d <= 6:
                 add(f'pinv_eig {d} {bits(w)} {bits(Q)} {f2b(w.max() * d * EPS)}', 'mat', (P, 1e-9 * np.abs(P).max() + 1e-300, 'pinv_eig', case))
     # non-symmetric and negative tolerance
@@ -165,6 +173,12 @@ def run(R, tier, seed, driver_ok):
         pairs = np.vstack([pairs, pairs[:3]]); yyd = np.concatenate([yy, yy[:3]])
         Xd = np.unique(np.vstack(pairs), axis=0)
         A = rng.randn(d, d); S = A.dot(A.T) + np.eye(d)
+        illc = False
+        if rng.rand() < 0.4:
+            # features in very different units: a positive definite but ill-conditioned covariance (cond up to ~1e11)
+            illc = True
+            sc = 10.0 ** -np.sort(rng.uniform(0, 5.5, size=d)); sc[0] = 1.0
+            X = X * sc; pairs = pairs * sc; Xd = Xd * sc
         for opt in ['identity', 'covariance', 'random', 'array']:
             prior = S if opt == 'array' else opt
             seedp = int(rng.randint(1 << 30))
@@ -187,7 +201,14 @@ def run(R, tier, seed, driver_ok):
                 est3 = ITML(prior='random', random_state=seedp + 1, max_iter=3).fit(pairs, yyd, bounds=[1e12, 1e-12])
                 if np.allclose(est3.get_mahalanobis_matrix(), want):
                     R.violation('init/random/seed-ignored', 'random prior does not depend on the seed', {'d': d})
-            if np.abs(M - want).max() > 1e-8 * max(np.abs(want).max(), 1):
+            tol_init = 1e-8
+            if opt == 'covariance' and illc:
+                cw = np.linalg.eigvalsh(np.atleast_2d(np.cov(Xd, rowvar=False)))
+                if cw.min() <= 1e3 * cw.max() * d * EPS:
+                    continue                                   # at the d·eps cut-off: either treatment is documented
+                tol_init = max(1e-8, 1e3 * EPS * cw.max() / cw.min())
+                R.count('init-covariance:ill-conditioned')
+            if np.abs(M - want).max() > tol_init * max(np.abs(want).max(), 1):
                 R.violation(f'init/{opt}/wrong-matrix', f"ITML(prior={opt!r}) with a feasible prior returned a matrix that differs from the documented prior by {np.abs(M - want).max():.3g}", {'X': Xd, 'option': opt})
         # strict PD learners reject a singular prior; MMC accepts a PSD init
         # an exactly singular PSD prior (a permuted block matrix: its zero eigenvalue is computed to within an ulp,
